@@ -288,7 +288,8 @@ func overrideEntry(node *CandidateNode, key *CandidateNode, value *CandidateNode
 	for index := startIndex + 2; index < len(node.Content); index = index + 2 {
 		keyNode := node.Content[index]
 
-		if keyNode.Value == key.Value && keyNode.Alias == nil {
+		// only a key of the map can override: for a merge list startIndex is the index inside the list, and an odd one lands on value nodes
+		if keyNode.IsMapKey && keyNode.Value == key.Value && keyNode.Alias == nil {
 			log.Debugf("content will be overridden at index %v", index)
 			return nil
 		}
